@@ -443,7 +443,9 @@ extern "C" pid_t __wrap__Z9ipcCreateiPKcPKS0_S0_RN2Ip7AddressEPiS6_PPv(int type,
     for (int i = 0; args && args[i]; ++i) if (!strncmp(args[i], "sim=", 4)) g_ipcToken = args[i] + 4;
     if (g_ipcToken.empty() && prog) { const char *b = strrchr(prog, '/'); g_ipcToken = b ? b + 1 : prog; }
     if (g_ipcName == "unlinkd") g_ipcToken = "unlinkd";
+    g_net.inIpcCreate = true; g_net.ipcListenFd = -1;
     pid_t p = __real__Z9ipcCreateiPKcPKS0_S0_RN2Ip7AddressEPiS6_PPv(type, prog, args, name, a, rfd, wfd, h);
+    g_net.inIpcCreate = false;
     hist("PROC\tipcCreate\t%s\t%s\t%d", g_ipcName.c_str(), g_ipcToken.c_str(), (int)p);
     g_ipcName.clear();
     return p;
